@@ -396,3 +396,112 @@ theorem kruskal_tenmat_khatrirao [CommSemiring α] (K : Ktensor α) (hK : K.WF) 
   rw [(hperm.map _).prod_eq, List.map_append, prod_append']
 
 end Pyttb
+
+namespace Pyttb
+variable {α : Type}
+
+/-! ### `double()` of any holder -/
+
+/-- the cell of the `double()` array that belongs to tensor subscript `i`: `i` itself for the
+five tensor classes, (row, column) for the matricized classes. -/
+def Holder.cell : Holder α → List Nat → List Nat
+  | .tenmat M, i => matSub M.tshape M.rdims M.cdims i
+  | .sptenmat M, i => matSub M.tshape M.rdims M.cdims i
+  | _, i => i
+
+/-- the shape of the `double()` array. -/
+def Holder.dshape : Holder α → List Nat
+  | .tenmat M => [numel (gather M.tshape M.rdims), numel (gather M.tshape M.cdims)]
+  | .sptenmat M => [numel (gather M.tshape M.rdims), numel (gather M.tshape M.cdims)]
+  | h => h.shape
+
+/-- **`double()` of any well-formed holder** is accepted and yields a well-formed array of the
+tensor shape (matrix shape for the matricized classes) holding, at the cell of every subscript
+`i`, the entry the holder denotes. -/
+theorem holder_double [CommSemiring α] [DecidableEq α] (h : Holder α) (hw : h.WF) :
+    ∃ D, h.double = .ok D ∧ D.shape = h.dshape ∧ D.WF ∧
+      ∀ i, InBounds h.shape i → D.get (h.cell i) = h.get i := by
+  cases h with
+  | dense T => exact ⟨T, rfl, rfl, hw.1, fun _ _ => rfl⟩
+  | sparse S =>
+    refine ⟨S.full, sp_double_eq_full S hw.1.inb hw.1.len, rfl, Dense.ofFn_WF _ _, ?_⟩
+    intro i hi
+    exact (sp_full_at S hw.1 i hi).1
+  | kruskal K =>
+    obtain ⟨D, hD, hs, hW, hg⟩ := kruskal_full_denoted K hw
+    exact ⟨D, by show K.double = _; rw [Ktensor.double_eq_full]; exact hD, hs, hW, hg⟩
+  | tucker T =>
+    obtain ⟨D, hD, hs, hW, hg⟩ := tucker_full_denoted T hw
+    exact ⟨D, by show T.double = _; rw [Ttensor.double_eq_full]; exact hD, hs, hW, hg⟩
+  | sum P =>
+    obtain ⟨D, hD, hs, hW, hg⟩ := sum_full_denoted P hw
+    exact ⟨D, by show ML.Sumtensor.double P = _; rw [Sumtensor.double_eq_full]; exact hD, hs, hW, hg⟩
+  | tenmat M =>
+    refine ⟨M.data, rfl, hw.1.mshape, hw.1.data, fun _ _ => rfl⟩
+  | sptenmat M =>
+    refine ⟨M.full.data, sptenmat_double_eq_full M hw.1 hw.2.1, rfl, Dense.ofFn_WF _ _, ?_⟩
+    exact (sptenmat_full_spec M hw.1).2.2.2.2
+
+/-! ### the executable Khatri-Rao form -/
+
+/-- **`Ktensor.krTenmat`** — `(khatrirao(A[r], reverse) · diag λ) · khatrirao(A[c], reverse)ᵀ`
+laid out as a matrix — IS the matrix of `K.to_tenmat(r, c)` for every ordered partition with
+both sides non-empty (positive extents). -/
+theorem kruskal_krTenmat [CommSemiring α] (K : Ktensor α) (hK : K.WF) (r c : List Nat)
+    (hr : r ≠ []) (hc : c ≠ []) (hp : isPermOf (r ++ c) K.factors.length = true)
+    (hpos : ∀ e ∈ K.shape, 0 < e) :
+    ∃ M, K.toTenmat (some r) (some c) none = .ok M ∧ K.krTenmat r c = .ok M.data := by
+  have hsl : K.shape.length = K.factors.length := by simp [Ktensor.shape]
+  have hp' : isPermOf (r ++ c) K.shape.length = true := by rw [hsl]; exact hp
+  have h0 := ML.zeros_inBounds K.shape hpos
+  obtain ⟨L, Rm, M, hL, hRm, hM, hLlen, hRlen, _⟩ := kruskal_tenmat_khatrirao K hK r c hr hc hp _ h0
+  have hN : 1 ≤ K.factors.length := by
+    have hl := isPermOf_length_eq hp
+    cases r with
+    | nil => exact absurd rfl hr
+    | cons a r => simp at hl; omega
+  obtain ⟨_, M0, _, _, hM0, _, _, _, hMW, hMs, _⟩ := kruskal_tenmat_entry K hK hN r c hp _ h0
+  have hMM : M0 = M := by
+    have : (Except.ok M0 : Except Reject (Tenmat α)) = .ok M := by rw [← hM0, ← hM]
+    exact Except.ok.inj this
+  subst hMM
+  refine ⟨M0, hM, ?_⟩
+  unfold Ktensor.krTenmat
+  simp only [hL, hRm]
+  congr 1
+  symm
+  refine Dense.ext_get hMW.data ?_ (by rw [hMs, hLlen, hRlen]) ?_
+  · show (Rm.flatMap fun rrow => L.map fun lrow => _).length = numel [L.length, Rm.length]
+    rw [length_flatMap_map, numel_pair, Nat.mul_comm]
+  · intro u hu
+    rw [hMs] at hu
+    match u, hu with
+    | [a, b], hu =>
+      have hab : a < numel (gather K.shape r) ∧ b < numel (gather K.shape c) := by
+        simpa [InBounds] using hu
+      obtain ⟨j, hj, hjab⟩ := matSub_surj hp' a b hab.1 hab.2
+      obtain ⟨L', Rm', M', hL', hRm', hM', _, _, hget⟩ := kruskal_tenmat_khatrirao K hK r c hr hc hp j hj
+      have e1 : L' = L := by
+        have : (Except.ok L' : Except Reject (Mat α)) = .ok L := by rw [← hL', ← hL]
+        exact Except.ok.inj this
+      have e2 : Rm' = Rm := by
+        have : (Except.ok Rm' : Except Reject (Mat α)) = .ok Rm := by rw [← hRm', ← hRm]
+        exact Except.ok.inj this
+      have e3 : M' = M0 := by
+        have : (Except.ok M' : Except Reject (Tenmat α)) = .ok M0 := by rw [← hM', ← hM]
+        exact Except.ok.inj this
+      subst e1; subst e2; subst e3
+      simp only [matSub, List.cons.injEq, and_true] at hjab
+      rw [hjab.1, hjab.2] at hget
+      rw [hget]
+      have ha : a < L'.length := by rw [hLlen]; exact hab.1
+      have hb : b < Rm'.length := by rw [hRlen]; exact hab.2
+      simp only [Dense.get, sub2ind_pair]
+      rw [show a + L'.length * b = b * L'.length + a by rw [Nat.mul_comm]; omega,
+        List.getD_eq_getElem?_getD, flatMap_map_getElem? Rm' L' _ b a hb ha, Option.getD_some]
+      congr 1
+      apply List.map_congr_left
+      intro q _
+      rw [Mat.get_eq_getD_row L' a q ha, Mat.get_eq_getD_row Rm' b q hb]
+
+end Pyttb
